@@ -116,6 +116,17 @@ ChooseWrite(sameBuf, t) ==
     IN [e |-> "SliceWrite", buf |-> h, shape |-> shp, r |-> r, aop |-> PickSeq(Aops),
         na |-> IF sameBuf THEN PickSeq(<<1, 1, 0>>) ELSE PickSeq(<<0, 0, 0, 1>>),
         rhs |-> DrawRhs(h, ext, n, sameBuf)]
+\* the same view OBJECT used for two consecutive assignments (C18: repeated application on the same view object):
+\*   auto v = H(ranges);  v[.noalias()] op1= rhs1;  v[.noalias()] op2= rhs2;
+ChooseWrite2(t) ==
+    LET h   == Pick(Names)
+        shp == ShapeOf(h)
+        r   == DrawSlice(shp, TRUE)
+        ext == SliceShape(shp, r)
+        n   == Prod(ext)
+    IN [e |-> "SliceWrite2", buf |-> h, shape |-> shp, r |-> r,
+        aop1 |-> PickSeq(<<"set", "add", "sub", "mul">>), na1 |-> 1, rhs1 |-> DrawRhs(h, ext, n, TRUE),
+        aop2 |-> PickSeq(<<"set", "add", "sub", "mul">>), na2 |-> PickSeq(<<1, 1, 0>>), rhs2 |-> DrawRhs(h, ext, n, Pick(1..2) = 1)]
 ChooseRead(t) ==
     LET h   == Pick(Names)
         shp == ShapeOf(h)
@@ -232,7 +243,7 @@ Draw(t) == CASE Mode = "write" -> IF Pick(1..6) = 1 THEN ChooseScalar(TRUE, t) E
              [] Mode = "read"  -> IF Pick(1..5) = 1 THEN ChooseScalar(FALSE, t) ELSE IF Pick(1..4) = 1 THEN ChooseWrite(FALSE, t) ELSE ChooseRead(t)
              [] Mode = "index" -> IF Pick(1..5) = 1 THEN ChooseMask(t) ELSE IF Pick(1..3) = 1 THEN ChooseIndex(FALSE, t) ELSE ChooseIndex(TRUE, t)
              [] Mode = "maps" -> IF Pick(1..5) = 1 THEN ChooseLayout(t) ELSE ChooseMap(t)
-             [] Mode = "alias" -> IF Pick(1..5) = 1 THEN ChooseWrite(FALSE, t) ELSE ChooseWrite(TRUE, t)
+             [] Mode = "alias" -> IF Pick(1..5) = 1 THEN ChooseWrite(FALSE, t) ELSE IF Pick(1..4) = 1 THEN ChooseWrite2(t) ELSE ChooseWrite(TRUE, t)
 
 \* ---- Apply: domain check on the current memory, then the L1 action
 InDomain(c) ==
@@ -243,6 +254,13 @@ InDomain(c) ==
                    src == EvalRhs(mem, c.rhs, Len(sel), Cx)
                IN /\ (c.aop = "div" => DivOK(mem[c.buf], sel, src))
                   /\ SmallBlk(SliceWrite(mem, c.buf, c.shape, c.r, c.aop, c.rhs, Cx)[c.buf])
+      [] c.e = "SliceWrite2" ->
+            LET c1 == [buf |-> c.buf, shape |-> c.shape, r |-> c.r, na |-> c.na1, rhs |-> c.rhs1]
+                c2 == [buf |-> c.buf, shape |-> c.shape, r |-> c.r, na |-> c.na2, rhs |-> c.rhs2]
+                m1 == SliceWrite(mem, c.buf, c.shape, c.r, c.aop1, c.rhs1, Cx)
+            IN /\ \A a \in 1..Len(c.shape) : Admissible(c.r[a], c.shape[a])
+               /\ OverlapOK(c1) /\ OverlapOK(c2)
+               /\ SmallBlk(m1[c.buf]) /\ SmallBlk(SliceWrite(m1, c.buf, c.shape, c.r, c.aop2, c.rhs2, Cx)[c.buf])
       [] c.e = "SliceRead" -> \A a \in 1..Len(c.shape) : Admissible(c.r[a], c.shape[a])
       [] c.e = "ScalarWrite" -> SmallV(CombD(c.aop, Cell(mem[c.buf], ScalarOff(c.shape, c.idx)), c.v, Cx))
       [] c.e = "ScalarRead" -> TRUE
@@ -255,6 +273,7 @@ InDomain(c) ==
       [] c.e = "MaskWrite" -> SmallBlk(MaskAssign(mem, c.buf, c.mask, c.aop, c.rhs, Prod(c.shape), Cx)[c.buf])
 Effect(c) ==
     CASE c.e = "SliceWrite" -> SliceWrite(mem, c.buf, c.shape, c.r, c.aop, c.rhs, Cx)
+      [] c.e = "SliceWrite2" -> SliceWrite(SliceWrite(mem, c.buf, c.shape, c.r, c.aop1, c.rhs1, Cx), c.buf, c.shape, c.r, c.aop2, c.rhs2, Cx)
       [] c.e = "ScalarWrite" -> AssignSel(mem, c.buf, <<ScalarOff(c.shape, c.idx)>>, c.aop, [k |-> "sc", v |-> c.v], Cx)
       [] c.e = "IndexWrite" -> AssignSel(mem, c.buf, c.sel, c.aop, c.rhs, Cx)
       [] c.e = "MaskWrite" -> MaskAssign(mem, c.buf, c.mask, c.aop, c.rhs, Prod(c.shape), Cx)
